@@ -714,17 +714,20 @@ func init() {
 		n := args[0].(*Term)
 		v := in.fresh("rand.Intn", 64)
 		in.pc = append(in.pc, in.tt.SLe(in.tt.Const(64, 0), v), in.tt.SLt(v, n))
+		in.model = nil
 		return v
 	})
 	reg("math/rand.Int31n", func(in *Interp, fr *frame, args []value) value {
 		n := args[0].(*Term)
 		v := in.fresh("rand.Int31n", 32)
 		in.pc = append(in.pc, in.tt.SLe(in.tt.Const(32, 0), v), in.tt.SLt(v, n))
+		in.model = nil
 		return v
 	})
 	reg("math/rand.Int63", func(in *Interp, fr *frame, args []value) value {
 		v := in.fresh("rand.Int63", 64)
 		in.pc = append(in.pc, in.tt.SLe(in.tt.Const(64, 0), v))
+		in.model = nil
 		return v
 	})
 	reg("os.Hostname", func(in *Interp, fr *frame, args []value) value {
@@ -764,12 +767,14 @@ func (in *Interp) fresh(name string, w int) *Term { return in.freshNamed(in.uniq
 func (in *Interp) noteLen(name string, n int64) {
 	in.freshNamed("len:"+name, 64)
 	in.pc = append(in.pc, in.tt.Eq(in.tt.Var("len:"+name, 64), in.tt.Const(64, uint64(n))))
+	in.model = nil
 }
 
 func (in *Interp) noteChoice(name string, n int64) {
 	nm := in.uniq("choice:" + name)
 	in.freshNamed(nm, 64)
 	in.pc = append(in.pc, in.tt.Eq(in.tt.Var(nm, 64), in.tt.Const(64, uint64(n))))
+	in.model = nil
 }
 
 func (in *Interp) pcPush(c *Term) { in.pc = append(in.pc, c) }
@@ -795,18 +800,22 @@ func (in *Interp) timeNow() value {
 	in.clockN++
 	v := in.freshNamed(fmt.Sprintf("clock#%d", in.clockN), 64)
 	tt := in.tt
-	// monotone, and within [2012-01-01, 2200-01-01) so Add/Sub of durations cannot wrap
-	lo := tt.Const(64, 1325376000000000000)
-	hi := tt.Const(64, 7258118400000000000)
+	// monotone, and within [2013-01-01, 2080-01-01): Add/Sub of durations cannot wrap and the
+	// 41-bit timestamp field of message ids does not overflow
+	lo := tt.Const(64, 1356998400000000000)
+	hi := tt.Const(64, 3471292800000000000)
 	if in.clockLo != nil {
 		lo, hi = in.clockLo, in.clockHi
 	}
 	if in.clockLast != nil {
 		in.pc = append(in.pc, tt.SLe(in.clockLast, v))
+		in.model = nil
 	} else {
 		in.pc = append(in.pc, tt.SLe(lo, v))
+		in.model = nil
 	}
 	in.pc = append(in.pc, tt.SLt(v, hi))
+	in.model = nil
 	in.clockLast = v
 	return in.mkTime(v)
 }
